@@ -80,7 +80,21 @@ def check_case(case):
             if sol.status != "optimal":
                 return None, "not-feasible"
         else:
-            sol = None
+            # the defaulted solution (pFBA computed by the summary itself) is exercised for "does not raise"; its tables cannot be predicted when the
+            # pFBA optimum is not unique, so the comparison below uses the same kind of solution passed explicitly
+            try:
+                m.summary().to_string()
+                if len(m.metabolites):
+                    m.metabolites[0].summary().to_string()
+            except Exception as e:
+                if type(e).__name__ in ("Infeasible", "OptimizationError", "Unbounded"):
+                    return None, "pfba-failed"
+                return [f"summary with a defaulted solution raised {type(e).__name__}: {e}"], "ran"
+            from cobra.flux_analysis import pfba
+            try:
+                sol = pfba(m)
+            except Exception:
+                return None, "pfba-failed"
         fva = None
         if case["fva"] == "frame":
             fva = pd.DataFrame({"minimum": {r: float(F(a)) for r, (a, b) in case["ranges"].items()},
